@@ -49,22 +49,29 @@ theorem C04_mapping_injective (t : Ty) (v w : Val) (hv : wt t v = true) (hw : wt
 
 /-! ### the first half of the injectivity lemma, and the composition with it discharged -/
 
-/-- **`Spec.interp ∘ ser = lv` at the traced field**, for every option set, on the fragment `frag`: scalars, `()`, unit
-structs, Option, newtype structs, Vec, maps and structs (fields matched by name, `skip_serializing_if` fields left
-out).  `_partial`: tuples / tuple structs (positional names) and enums (Union, with the `noneAtUnion` exclusion) are
-not in `frag` yet; instances for them are checked on examples below. -/
+/-- **`Spec.interp ∘ ser = lv` at the traced field**, for every option set, on the grammar `fragE`: scalars, `()`, unit
+structs, Option, newtype structs, Vec, maps, structs (fields matched by name, `skip_serializing_if` fields left out),
+tuples / tuple structs / arrays (positional names "0", "1", … are distinct: `Nat.repr` is injective) and enums traced to
+a Union (unit / newtype / tuple / struct variants), under the documented exclusions in type-directed form `inScope`: no
+`None` (or skipped field) at a position traced to a Union, no value of a data-less enum stored as a string.
+`_partial`: data-less enums under `enums_without_data_as_strings` (Dictionary column: the logical value is the variant
+NAME there, `lv` describes the Union form) are excluded by `inScope`. -/
 theorem C04_interp_ser_partial (ext : Ext) (o : TraceOpts) (t : Ty) (v : Val) (dt : DataType) (nb : Bool) (md : Metadata)
-    (hf : frag t = true) (hw : wt t v = true) (hm : mappingDT o t = (dt, nb, md)) :
+    (hf : fragE t = true) (hw : wt t v = true) (hs : inScope o t v = true) (hm : mappingDT o t = (dt, nb, md)) :
     interpDT ext dt nb md (ser t v) = .ok (lv t v) :=
-  interp_ser ext o t v nb dt nb md hf hw hm (fun h => h)
+  interp_serE ext o t v nb dt nb md hf hw hs hm (fun h => h)
+
+/-- the exclusions are vacuous for enum-free types of the grammar (`frag`) -/
+theorem C04_frag_inScope (o : TraceOpts) (t : Ty) (v : Val) (hf : frag t = true) : fragE t = true ∧ inScope o t v = true :=
+  ⟨frag_fragE t hf, frag_inScope o t v hf⟩
 
 theorem Fields.ofList_toList : ∀ (l : Fields), Fields.ofList l.toList = l
   | .nil => rfl
   | .cons f r => by simp [Fields.toList, Fields.ofList, Fields.ofList_toList r]
 
-/-- at the root: a record type of the fragment against the schema `from_type` returns for it -/
+/-- at the root: a record type of the grammar (enums included) against the schema `from_type` returns for it -/
 theorem C04_interpRow_partial (ext : Ext) (o : TraceOpts) (n : String) (fs : TFields) (v : Val) (fields : List Field)
-    (hf : frag (.struct n fs) = true) (hw : wt (.struct n fs) v = true)
+    (hf : fragE (.struct n fs) = true) (hw : wt (.struct n fs) v = true) (hs : inScope o (.struct n fs) v = true)
     (hroot : mappingRoot o (.struct n fs) = some fields) :
     interpRow ext fields (ser (.struct n fs) v) = .ok (lv (.struct n fs) v) := by
   have hfields : fields = (mappingFields o fs).toList := by
@@ -72,7 +79,7 @@ theorem C04_interpRow_partial (ext : Ext) (o : TraceOpts) (n : String) (fs : TFi
   subst hfields
   unfold interpRow
   rw [Fields.ofList_toList]
-  exact interp_ser ext o (.struct n fs) v false _ false [] hf hw (by simp [mappingDT]) (fun h => h)
+  exact interp_serE ext o (.struct n fs) v false _ false [] hf hw hs (by simp [mappingDT]) (fun h => h)
 
 /-! ### the round trip through the real models -/
 
@@ -180,7 +187,8 @@ theorem C04_roundtrip_partial (c : Trace.Code) (O : Trace.Options) (ext : Ext) (
   have hacc : Access.new true fields.length (arrs.map Read.vlen) = .ok vs.length :=
     access_new vs.length _ _ (by simp [hlen]) (by simpa using hnonempty) hlens
   -- the decoded record is the logical value of the input
-  have hinterp := C04_interpRow_partial ext o n fs vs[i] fields hfrag (hwt _ (List.getElem_mem hi)) hroot
+  have hinterp := C04_interpRow_partial ext o n fs vs[i] fields (frag_fragE _ hfrag) (hwt _ (List.getElem_mem hi))
+    (frag_inScope o _ _ hfrag) hroot
   have hrow := hc4 i (by rw [hrl]; exact hi)
   rw [List.getElem_map, hinterp] at hrow
   have hdec : Spec.decodeAt (rootArr fields arrs vs.length) i = .ok (lv t vs[i]) := by
@@ -244,15 +252,16 @@ def exVal2 : Val :=
     (.cons (.map .nil) (.cons (.some (.newtype (.bytes [1, 2]))) .nil)))))
 def exOpts : TraceOpts := { allowNullFields := true, mapAsStruct := false }
 
-/-- a record type inside the proved fragment (nested Option, Vec of Option of struct, map, skipped field, newtype) -/
+/-- a record type inside the enum-free fragment (nested Option, Vec of Option of struct, map with TUPLE values, skipped
+field, newtype) -/
 def exFragRoot : Ty :=
   .struct "Root" (.cons "a" false (.option (.option (.prim (.int .i32))))
     (.cons "v" false (.vec (.option exInner))
-    (.cons "m" false (.map (.prim .str) (.prim .char))
+    (.cons "m" false (.map (.prim .str) (.tuple (.cons (.prim .bool) (.cons (.prim .char) .nil))))
     (.cons "n" true (.option (.newtype "N" (.prim .bytes))) .nil))))
 def exFragVal : Val :=
   .struct (.cons (.some .none) (.cons (.vec (.cons (.some (.struct (.cons (.int 3) (.cons (.str "ab") .nil)))) (.cons .none .nil)))
-    (.cons (.map (.cons (.str "k") (.char 65) .nil)) (.cons .none .nil))))
+    (.cons (.map (.cons (.str "k") (.tuple (.cons (.bool false) (.cons (.char 65) .nil))) .nil)) (.cons .none .nil))))
 example : frag exFragRoot = true ∧ wt exFragRoot exFragVal = true := by decide +kernel
 example : frag exRoot = false := by decide +kernel
 
@@ -290,7 +299,7 @@ example : readRecord (toTarget exFragRoot) exFields exArrs 0 =
     .ok (.map (.cons (nameKey "a") .none
       (.cons (nameKey "v") (.seq (.cons (.some (.map (.cons (nameKey "x") (.int .i16 3)
           (.cons (nameKey "y") (.str .owned [97, 98]) .nil)))) (.cons .none .nil)))
-      (.cons (nameKey "m") (.map (.cons (.str .owned [107]) (.char 65) .nil))
+      (.cons (nameKey "m") (.map (.cons (.str .owned [107]) (.seq (.cons (.bool false) (.cons (.char 65) .nil))) .nil))
       (.cons (nameKey "n") .none .nil))))) := by decide +kernel
 
 example : wt exRoot exVal1 = true ∧ wt exRoot exVal2 = true := by decide +kernel
@@ -298,10 +307,19 @@ example : wt exRoot exVal1 = true ∧ wt exRoot exVal2 = true := by decide +kern
 example : norm exRoot exVal1 ≠ exVal1 ∧ norm exRoot exVal2 = exVal2 := by decide +kernel
 example : unser exRoot (lv exRoot exVal1) = some (norm exRoot exVal1) := by decide +kernel
 example : unser exRoot (lv exRoot exVal2) = some exVal2 := by decide +kernel
-/-- the hypotheses `Hinterp` of the composition theorem hold on the examples for the *real* `Spec.interp` -/
-example : (mappingRoot exOpts exRoot).map (fun fs => interpRow {} fs (ser exRoot exVal1)) = some (.ok (lv exRoot exVal1)) := by
-  decide +kernel
-example : (mappingRoot exOpts exRoot).map (fun fs => interpRow {} fs (ser exRoot exVal2)) = some (.ok (lv exRoot exVal2)) := by
+/-- non-vacuity of `C04_interp_ser_partial` / `C04_interpRow_partial` with enums and tuples: `exRoot` (an enum with all
+four variant kinds, a map with tuple values) is in `fragE`, both values are in scope, the traced root schema exists, and
+the theorem gives the logical value of the serialized record under the *real* `Spec.interpRow` -/
+example : fragE exRoot = true ∧ inScope exOpts exRoot exVal1 = true ∧ inScope exOpts exRoot exVal2 = true ∧
+    (mappingRoot exOpts exRoot).isSome = true := by decide +kernel
+example (fields : List Field) (h : mappingRoot exOpts exRoot = some fields) :
+    interpRow {} fields (ser exRoot exVal1) = .ok (lv exRoot exVal1) ∧ interpRow {} fields (ser exRoot exVal2) = .ok (lv exRoot exVal2) :=
+  ⟨C04_interpRow_partial {} exOpts "Root" _ exVal1 fields (by decide +kernel) (by decide +kernel) (by decide +kernel) h,
+   C04_interpRow_partial {} exOpts "Root" _ exVal2 fields (by decide +kernel) (by decide +kernel) (by decide +kernel) h⟩
+/-- the exclusion is needed: `Option<enum>` = `None` is out of scope, and the documented mapping has no value for it
+(unions cannot hold nulls) -/
+example : inScope exOpts (.option exEnum) .none = false ∧
+    (interpDT {} (mappingDT exOpts (.option exEnum)).1 true (mappingDT exOpts (.option exEnum)).2.2 (ser (.option exEnum) .none)).isOk = false := by
   decide +kernel
 /-- different values have different logical content -/
 example : lv exRoot exVal1 ≠ lv exRoot exVal2 := by decide +kernel
